@@ -54,6 +54,15 @@ def scenarios(tier):
                 'actors': {'main': [['sched', c, 0.5, 'f0']],
                            'X': [['sched', c, d2, 'f1']]},
                 'horizon': 5.0}))
+        # S4b: the numeric return value is an instance of a float / int
+        # subclass (numpy scalar, IntEnum member ...): still a number
+        out.append(('S4b', {
+            'clocks': cl,
+            'funcs': {'f0': {'returns': [0.5, 1, None], 'numtype': 'sub'},
+                      'f1': {}},
+            'actors': {'main': [['sched', c, 0.5, 'f0']],
+                       'X': [['sched', c, 1.0, 'f1']]},
+            'horizon': 6.0}))
         # S5: a raising task between two good ones (function / bare awakeable)
         for kind in ('func', 'awakeable'):
             for d in (0.5, 1.0):
